@@ -217,6 +217,25 @@ def import_answers():
     yield ("import-empty",), base, {"lib.bitproto": ""}
     yield ("import-no-proto-name",), base, {"lib.bitproto": "const LK = 2\n"}
     yield ("import-binary",), base, {"lib.bitproto": "\x00\x01\x02\xff"}
+    # cycles, under several spellings of the same file (the main file exists on disk for these)
+    lib = AUX["lib.bitproto"]
+    for label, imp_main, imp_lib, extra in (
+            ("import-self", None, None, {}),
+            ("import-cycle", '"lib.bitproto"', '"main.bitproto"', {}),
+            ("import-cycle-dot", '"./lib.bitproto"', '"main.bitproto"', {}),
+            ("import-cycle-dot2", '"lib.bitproto"', '"./main.bitproto"', {}),
+            ("import-cycle-subdir", '"sub/lib2.bitproto"', None, {"sub/": None, "sub/lib2.bitproto": "proto lib2\n\nimport \"../main.bitproto\"\n"}),
+            ("import-cycle-updown", '"lib.bitproto"', '"sub/../main.bitproto"', {"sub/": None})):
+        if imp_main is None:
+            for spelling in ('"main.bitproto"', '"./main.bitproto"'):
+                t = base.replace('"lib.bitproto"', spelling)
+                yield (label, spelling), t, {"main.bitproto": t}
+            continue
+        t = base.replace('"lib.bitproto"', imp_main)
+        aux = dict(extra, **{"main.bitproto": t})
+        if imp_lib is not None:
+            aux["lib.bitproto"] = lib.replace("\n", "\nimport %s\n" % imp_lib, 1) if lib.startswith("proto") else lib
+        yield (label,), t, aux
     for label, mutated in itertools.islice(edits(AUX["lib.bitproto"]), 0, None, 7):
         yield ("import-invalid",) + tuple(map(str, label)), base, {"lib.bitproto": mutated}
 
@@ -295,7 +314,7 @@ def run_unit(unit):
             d = base
             if aux:
                 d = sc.sub("a%d" % k)
-                for fn, tx in dict(AUX, **aux).items():
+                for fn, tx in sorted(dict(AUX, **aux).items(), key=lambda kv: not kv[0].endswith("/")):
                     if fn.endswith("/"):
                         os.makedirs(os.path.join(d, fn), exist_ok=True)
                     else:
@@ -418,7 +437,7 @@ def replay(payload):
     from bitproto.renderer.impls import renderer_registry
     r = payload["replay"]
     with Scratch() as sc:
-        for fn, tx in dict(AUX, **(r.get("aux") or {})).items():
+        for fn, tx in sorted(dict(AUX, **(r.get("aux") or {})).items(), key=lambda kv: not kv[0].endswith("/")):
             if fn.endswith("/"):
                 os.makedirs(os.path.join(sc.dir, fn), exist_ok=True)
             else:
